@@ -2269,7 +2269,14 @@ func (d *decoderMsgpackBytes) kChan(f *decFnInfo, rv reflect.Value) {
 		if !d.d.TryNil() {
 			d.decodeValueNoCheckNil(rv9, fn)
 		}
-		rv.Send(rv9)
+		if rvChanged {
+
+			if !rv.TrySend(rv9) {
+				halt.errorf("cannot decode more than %d values into a nil chan: pass a chan that has a receiver", any(rvlen))
+			}
+		} else {
+			rv.Send(rv9)
+		}
 	}
 	if isArray {
 		d.arrayEnd()
@@ -6342,7 +6349,14 @@ func (d *decoderMsgpackIO) kChan(f *decFnInfo, rv reflect.Value) {
 		if !d.d.TryNil() {
 			d.decodeValueNoCheckNil(rv9, fn)
 		}
-		rv.Send(rv9)
+		if rvChanged {
+
+			if !rv.TrySend(rv9) {
+				halt.errorf("cannot decode more than %d values into a nil chan: pass a chan that has a receiver", any(rvlen))
+			}
+		} else {
+			rv.Send(rv9)
+		}
 	}
 	if isArray {
 		d.arrayEnd()
